@@ -13,6 +13,13 @@
 // start-up recovery's own DEL/ZREM requests, the migration's requests and the coordinator's
 // frontier HSET … journal DELs — are crash points again.
 //
+// Clean-stop schedule (stop-N cases): the same first start, but the Send context is cancelled —
+// the way the tool is stopped — at a PRNG-chosen LOGICAL instant in mid-traffic (right after the
+// feeder handed out stream byte n, or from the double's request hook at the k-th target request),
+// 24 links at a time, with and without reply delays; Send returns, the double drains
+// (WaitNoConns), then the usual chain of fresh starts on the final state.  Sync mode: the units the
+// stopped run committed must be a gap-free prefix; all modes: the next start skips nothing.
+//
 // Oracle (bisweep.Judge), per DESIGN C14: resume offset R of every start ∈ {unit ends} ∪ {stream
 // start}; every unit ending at or before R is committed (complete target transaction: all business
 // commands of the unit + its record [+ index]); sync mode: R = end of the last committed unit and
@@ -60,7 +67,8 @@ func main() {
 			"optional unrelated key in another target DB) + 3 fixed directed cases; crash points = EVERY prefix of the requests the target executed during the incremental phase, grouped by the "+
 			"bookkeeping state they leave (bisync keys incl. journal/index/frontier; one chain of 2–4 fresh tool starts per distinct state, 1 in 4 chains in another replay mode = namespace "+
 			"switch/migration); restarted runs: every state inside start-up bookkeeping/recovery/migration and between starts exhaustively, traffic-phase states by PRNG (thorough: a third level, PRNG third of its states); exhaustive per observed request sequence, not over schedules; RebuildBisyncFrontier on all "+
-			"subsets of ≤10 surviving journal records (observed states + synthetic windows); distinct = (mode[, other-db], modes of the restarted starts, depth, where the prefix falls: in-unit / between-units / "+
+			"subsets of ≤10 surviving journal records (observed states + synthetic windows); clean-stop schedule: PRNG(seed,i) → cancel of the Send context at stream byte n / target request k in mid-traffic, "+
+			"target drained, fresh-start chain; distinct = (mode[, other-db], modes of the restarted starts, depth, where the prefix falls: in-unit / between-units / "+
 			"between-frontier-save-and-journal-delete / inside-recovery[/journal-cleanup] / idle / after-stop, whether the resumed run repeated units)")
 	run.Watchdog(110 * time.Minute)
 	run.Assume("target state after a crash = effects of a prefix of the requests the double executed; an open MULTI block is discarded (fakeredis); business writes are logged, not executed")
